@@ -35,7 +35,7 @@ static struct tbl_iter XV_MAKE_ITER(struct tentry* p) { struct tbl_iter it; it.p
 #define SPARE (&epool[XV_E + 1])
 struct tentry epool[EP];
 struct tbl T;
-unsigned in_ne; unsigned char in_state[XV_E]; int in_init;
+unsigned in_ne, in_states; unsigned char in_state[XV_E]; int in_init;   /* in_states: 2 bits per entry */
 
 /* ---- ghost allocator for `new T()`: counts, hands out raw memory, runs the real constructor text ---- */
 unsigned g_alloc; struct tentry* g_node;
@@ -144,7 +144,8 @@ static void havoc_entries(void) {
 /* list: head -> epool[0] -> ... -> epool[ne-1] -> null with states in_state[] */
 static void build_list(void) {
   in_ne = nondet_uint(); XV_ASSUME(in_ne <= XV_E);
-  for (unsigned k = 0; k < XV_E; k++) { in_state[k] = nondet_uchar(); XV_ASSUME(in_state[k] <= ES_active);
+  in_states = nondet_uint();
+  for (unsigned k = 0; k < XV_E; k++) { in_state[k] = (in_states >> (2 * k)) & 3; XV_ASSUME(in_state[k] <= ES_active);
     if (k < in_ne) { epool[k].state = in_state[k]; epool[k].next_entry = (k + 1 < in_ne) ? &epool[k + 1] : (struct tentry*)0; } }
   T.head = in_ne ? &epool[0] : (struct tentry*)0;
 }
